@@ -161,6 +161,9 @@ impl de::Error for DErr {
         DErr::Custom(m.to_string())
     }
 }
+/// when set, the injected failure of a `De` is a panic instead of an error
+static DE_PANICS: std::sync::atomic::AtomicBool = std::sync::atomic::AtomicBool::new(false);
+struct DePanic(usize);
 pub struct De<'a> {
     toks: &'a [Tok],
     pos: &'a Cell<usize>,
@@ -176,6 +179,9 @@ impl<'de, 'a, 'b> Deserializer<'de> for &'b mut De<'a> {
     fn deserialize_any<V: Visitor<'de>>(self, v: V) -> Result<V::Value, DErr> {
         self.calls.set(self.calls.get() + 1);
         if self.calls.get() == self.fail_at {
+            if DE_PANICS.load(std::sync::atomic::Ordering::SeqCst) {
+                std::panic::panic_any(DePanic(self.fail_at));
+            }
             return Err(DErr::Injected(self.fail_at));
         }
         let p = self.pos.get();
@@ -611,6 +617,54 @@ fn de_case<T: for<'de> Deserialize<'de> + PartialEq + fmt::Debug>(name: &str, to
     }
 }
 
+/// the deserializer (or the payload's own impl) panics at its k-th call: like an error, the unwind comes out as T's
+/// own deserialiser lets it out, and no allocation is left behind
+fn de_panic_case<T: for<'de> Deserialize<'de> + PartialEq + fmt::Debug>(name: &str, toks: &[Tok], out: &mut Vec<Value>) {
+    use std::panic::{catch_unwind, AssertUnwindSafe};
+    use std::sync::atomic::Ordering::SeqCst;
+    let (p0, c0) = (Cell::new(0), Cell::new(0));
+    let _ = T::deserialize(&mut De { toks, pos: &p0, calls: &c0, fail_at: 0, hr: true });
+    let ncalls = c0.get();
+    let prev = std::panic::take_hook();
+    std::panic::set_hook(Box::new(|_| {}));
+    for kind in ["arc", "unique"] {
+        for k in 1..=ncalls {
+            DE_PANICS.store(true, SeqCst);
+            let (p, c) = (Cell::new(0), Cell::new(0));
+            let rv = catch_unwind(AssertUnwindSafe(|| T::deserialize(&mut De { toks, pos: &p, calls: &c, fail_at: k, hr: true }).is_ok()));
+            let calls_v = c.get();
+            alloc::reset();
+            ev::LOG.clear();
+            let (p, c) = (Cell::new(0), Cell::new(0));
+            alloc::track(true);
+            let before = live_blocks();
+            let rh = catch_unwind(AssertUnwindSafe(|| match kind {
+                "arc" => Arc::<T>::deserialize(&mut De { toks, pos: &p, calls: &c, fail_at: k, hr: true }).is_ok(),
+                _ => UniqueArc::<T>::deserialize(&mut De { toks, pos: &p, calls: &c, fail_at: k, hr: true }).is_ok(),
+            }));
+            let pk = |r: &std::thread::Result<bool>| match r {
+                Err(e) => e.downcast_ref::<DePanic>().map(|d| d.0 as i64).unwrap_or(-1),
+                Ok(_) => -2,
+            };
+            let agree = pk(&rv) == pk(&rh) && pk(&rv) == k as i64;
+            // (the panic's own payload is an allocation: gone before the blocks are counted)
+            let rh: std::thread::Result<bool> = rh.map_err(|e| {
+                drop(e);
+                Box::new(()) as Box<dyn std::any::Any + Send>
+            });
+            alloc::track(false);
+            DE_PANICS.store(false, SeqCst);
+            let live_after = live_blocks() as i64 - before as i64;
+            out.push(json!({"op": "de", "payload": format!("{} (the deserializer panics)", name), "kind": kind, "k": k, "cut": toks.len(), "ncalls": ncalls, "human_readable": 1,
+                            "agree": agree as u8, "ok": 0, "value_equal": 1, "count": 0, "fresh": 1,
+                            "live_after": live_after, "same_calls": (c.get() == calls_v) as u8}));
+            drop((rv, rh));
+            alloc::reset();
+        }
+    }
+    std::panic::set_hook(prev);
+}
+
 /// `Deserialize::deserialize_in_place(d, &mut handle)`: the handle ends up a fresh sole owner of the new value, or is
 /// left exactly as it was; another owner of the old value never sees anything change
 fn de_in_place_case<T: for<'de> Deserialize<'de> + PartialEq + Clone + fmt::Debug>(name: &str, old: &T, toks: &[Tok], out: &mut Vec<Value>) {
@@ -725,6 +779,10 @@ pub fn run(out_path: &str) {
         t.0[..4].copy_from_slice(&[1, 2, 3, 4]);
         ser_case("Table (4.8 KB)", &t, &mut out);
     }
+    de_panic_case::<u64>("u64", &[U64(42)], &mut out);
+    de_panic_case::<(u32, String)>("(u32,String)", &[Seq(2), U64(5), Str("t".into())], &mut out);
+    de_panic_case::<Outer>("Outer", &ot, &mut out);
+    de_panic_case::<Table>("Table (4.8 KB)", &[Seq(4), U64(1), U64(2), U64(3), U64(4)], &mut out);
     de_in_place_case::<u64>("u64", &5u64, &[U64(42)], &mut out);
     de_in_place_case::<(u32, String)>("(u32,String)", &(1u32, String::from("old")), &[Seq(2), U64(5), Str("t".into())], &mut out);
     de_in_place_case::<Inner>("Inner", &Inner { x: 100, s: "old".into() }, &inner_t(9, "z"), &mut out);
